@@ -1,0 +1,30 @@
+//go:build verif
+
+package sev
+
+import (
+	spb "github.com/google/gce-tcb-verifier/proto/sev"
+)
+
+// Hooks for the verification harness (property C18). Built only with -tags verif; add-only.
+
+// VerifC18PutPageInfo builds a PageInfo from the given field values and writes it with PageInfo.Put.
+func VerifC18PutPageInfo(digestCur, contents [48]byte, length uint16, pageType PageType, imi, vmpl1, vmpl2, vmpl3 uint8, gpa uint64, data []byte) error {
+	p := &PageInfo{
+		digestCur:  digestCur,
+		contents:   contents,
+		length:     length,
+		pageType:   uint8(pageType),
+		imi:        imi,
+		vmpl1Perms: vmpl1,
+		vmpl2Perms: vmpl2,
+		vmpl3Perms: vmpl3,
+		gpa:        gpa,
+	}
+	return p.Put(data)
+}
+
+// VerifC18PutVmcbSeg exposes putVmcbSeg.
+func VerifC18PutVmcbSeg(v *spb.VmcbSeg, data []byte) error {
+	return putVmcbSeg(v, data)
+}
